@@ -108,6 +108,7 @@ var opSpec = map[string]string{
 	"P.Add": "PPP", "P.Subtract": "PPP", "P.Equal": "PP", "P.ExtendedCoordinates": "PEEEE", "P.SetExtendedCoordinates": "PEEEE",
 	"P.ScalarBaseMult": "PS", "P.ScalarMult": "PSP", "P.VarTimeDoubleScalarBaseMult": "PSPS",
 	"I.feMulGeneric": "EEE", "I.feSquareGeneric": "EE",
+	"E.show": "E", "S.show": "S", "P.show": "P", "B.show": "B",
 }
 
 func mentionsOf(ws []string) []mention {
@@ -250,6 +251,22 @@ func (st *store) exec(ws []string) (res result) {
 		return out
 	}
 	switch op {
+	case "E.show":
+		need(a, 1)
+		st.E(a[0])
+		return result{out: "ok"}
+	case "S.show":
+		need(a, 1)
+		st.S(a[0])
+		return result{out: "ok"}
+	case "P.show":
+		need(a, 1)
+		st.P(a[0])
+		return result{out: "ok"}
+	case "B.show":
+		need(a, 1)
+		st.B(a[0])
+		return result{out: "ok"}
 	case "E.new":
 		need(a, 1)
 		st.e[a[0]] = new(field.Element)
